@@ -397,6 +397,12 @@ class M(Model):
         # source comment, not an advertised invariant: only "a level is a positive number" is asserted.
         if flev.min() < 1:
             out.append(("food level below 1", f"food {flev.tolist()}"))
+        # every food must be loadable at all (the instance admits the documented complete ending "all food items have
+        # been eaten"): a food has four sides, so at most the four strongest agents can load it together
+        best4 = int(np.sort(alev)[::-1][:4].sum())
+        if flev.max() > best4:
+            out.append(("a food item can never be loaded (level above the four strongest agents together)",
+                        f"agent levels {alev.tolist()} food levels {flev.tolist()}"))
         if eaten.any():
             out.append(("food eaten at reset", ""))
         # (agents.loading, step_count and the numbering of ids are not instance invariants: not asserted)
